@@ -96,6 +96,11 @@ func GenMinterParams(r *kernel.Rng, genesis time.Time, denom string, cfg MinterG
 			start = start.Truncate(time.Millisecond)
 		}
 		var minters []*mintertypes.Minter
+		// sequence ids are consecutive but need not start at 1 (validation only asks for a first id > 0)
+		idBase := uint32(0)
+		if r.P(0.3) {
+			idBase = uint32(r.Range(1, 8))
+		}
 		prev := start
 		for i := 0; i < n; i++ {
 			last := i == n-1
@@ -156,7 +161,7 @@ func GenMinterParams(r *kernel.Rng, genesis time.Time, denom string, cfg MinterG
 			if err != nil {
 				return mintertypes.Params{}, err
 			}
-			minters = append(minters, &mintertypes.Minter{SequenceId: uint32(i + 1), EndTime: end, Config: any})
+			minters = append(minters, &mintertypes.Minter{SequenceId: uint32(i+1) + idBase, EndTime: end, Config: any})
 			if end != nil {
 				prev = *end
 			}
@@ -170,8 +175,14 @@ func GenMinterParams(r *kernel.Rng, genesis time.Time, denom string, cfg MinterG
 }
 
 func MinterGenesisJSON(p mintertypes.Params, genesis time.Time) json.RawMessage {
+	first := uint32(1)
+	for i, m := range p.Minters {
+		if i == 0 || m.SequenceId < first {
+			first = m.SequenceId
+		}
+	}
 	gs := mintertypes.GenesisState{Params: p, MinterState: mintertypes.MinterState{
-		SequenceId: 1, AmountMinted: sdk.ZeroInt(), RemainderToMint: sdk.ZeroDec(), RemainderFromPreviousMinter: sdk.ZeroDec(),
+		SequenceId: first, AmountMinted: sdk.ZeroInt(), RemainderToMint: sdk.ZeroDec(), RemainderFromPreviousMinter: sdk.ZeroDec(),
 		LastMintBlockTime: genesis,
 	}}
 	return kernel.Enc().Marshaler.MustMarshalJSON(&gs)
